@@ -368,6 +368,7 @@ def run(ctx, rep):
                         f'{label}: structures rendered {rendered} (expected {order} once each, in that order in the text); output {r!r:.120}')
     r4(ctx, rep)
     r5(ctx, rep)
+    r6(ctx, rep)
 
 
 def r4(ctx, rep):
@@ -483,3 +484,74 @@ def r5(ctx, rep):
                                     f'three calls in a row starting from an empty `{attr}` give {outs[0]!r}, {outs[1]!r}, {outs[2]!r}: what a rendering '
                                     f'includes depends on whether the shared container was warm')
     rep.floor('C19.R5', 'methods over shared containers', n, 1)
+
+
+def r6(ctx, rep):
+    """The written form of a node's sentence is the lexical writer's under the options the tableau writer was given.  The chain
+    TabWriter.__init__ -> LexWriterMeta.__call__ -> <notation>.DefaultWriter -> LexWriter.__init__ is folded: every lexical-writer
+    option (the keys of the notation writers' `defaults`, and `dialect`) given to the tableau writer arrives in `lw.opts` /
+    at StringTable.fetch."""
+    from ..minieval import Interp, Obj, Raised
+    m = ctx.m
+    LW = 'pytableaux.lang.writing'
+    R6 = rep.rule('C19.R6', 'writer options reach the lexical writer: TabWriter.__init__, LexWriterMeta.__call__ and LexWriter.__init__ folded as a chain -- '
+                            'every option the notation\'s lexical writer declares (and the dialect) that is given to the tableau writer arrives there with its value')
+    tw_init = m.func(WRITERS, 'TabWriter.__init__')
+    meta_call = m.func(LW, 'LexWriterMeta.__call__')
+    lw_init = getattr(m.method(ClassRef(LW, 'LexWriter'), '__init__')[0], 'node', None)      # (not the TYPE_CHECKING overload stub of the same name)
+    astq.need(lw_init is not None, 'LexWriter.__init__ not found')
+    rep.consult(m.loc(WRITERS, tw_init) + ' TabWriter.__init__', m.loc(LW, meta_call) + ' LexWriterMeta.__call__', m.loc(LW, lw_init) + ' LexWriter.__init__')
+    itw = Interp(dict(MapProxy=dict, EMPTY_MAP={}), where='lang/writing.py writer defaults', modtree=m.trees[LW])
+
+    def class_attr(clsname, attr):
+        for c in m.mro(ClassRef(LW, clsname)):
+            try:
+                raw = m.clsns(c).get(attr)
+            except Exception:
+                continue
+            if isinstance(raw, tuple) and raw and raw[0] == 'expr':
+                try:
+                    return dict(itw.ev(raw[1], {}))
+                except (Raised, AnalysisError, TypeError, ValueError) as e:
+                    raise AnalysisError(f'{clsname}.{attr} does not fold: {getattr(e, "text", e)}')
+        return {}
+    n = 0
+    for wcls, notation in (('StandardLexWriter', 'standard'), ('PolishLexWriter', 'polish')):
+        declared = class_attr(wcls, 'defaults')
+        given = {k: ('GIVEN', k) for k in declared}
+        given_all = dict(given, dialect='DIALECT-GIVEN', classes=('tab-writer-option',))
+        fetched, built = [], []
+        StringTableM = Obj('StringTable', fetch=lambda **kw: (fetched.append(kw), Obj('strings', format=kw.get('format'), dialect=kw.get('dialect')))[1])
+        LexWriterM = Obj('LexWriter', DEFAULT_NOTATION='polish', DEFAULT_FORMAT='text', defaults=class_attr('LexWriter', 'defaults'))
+
+        def default_writer(*a, _declared=declared, _notation=notation, **kw):
+            self_ = Obj('lexwriter', notation=_notation, defaults=dict(_declared))
+            it_ = Interp(dict(LexWriter=LexWriterM, StringTable=StringTableM, Emsg=Obj('Emsg', WrongValue=lambda *x: ValueError(x))), where='lang/writing.py LexWriter.__init__')
+            it_.call(lw_init, [self_, *a], kw)
+            built.append(self_)
+            return self_
+        NotationM = lambda v: Obj(f'Notation.{v}', name=v, DefaultWriter=default_writer)
+        itm = Interp(dict(LexWriter=LexWriterM, Notation=NotationM), where='lang/writing.py LexWriterMeta.__call__')
+        LexWriterM.__class__ = type('LexWriterCallable', (Obj,), {'__call__': lambda s_, *a, **kw: itm.call(meta_call, [LexWriterM, *a], kw)})
+        tw = Obj('tabwriter', format='text', defaults={'classes': ()})
+        itt = Interp(dict(LexWriter=LexWriterM, Notation=lambda v: v, Emsg=Obj('Emsg', ValueConflict=lambda *x: ValueError(x))), where='proof/writers/__init__.py TabWriter.__init__')
+        try:
+            itt.call(tw_init, [tw, notation], dict(given_all))
+            err = None
+        except Raised as e:
+            err = e.text
+        except (TypeError, KeyError, AttributeError, ValueError) as e:
+            err = f'{type(e).__name__}: {e}'
+        lw = getattr(tw, 'lw', None)
+        lwopts = getattr(lw, 'opts', None) or {}
+        n += 1
+        missing = {k: v for k, v in given.items() if lwopts.get(k) != v}
+        dialect_ok = bool(fetched) and fetched[-1].get('dialect') == 'DIALECT-GIVEN' and fetched[-1].get('format') == 'text' and fetched[-1].get('notation') == notation
+        kept = getattr(tw, 'opts', {}) or {}
+        ok = err is None and not missing and dialect_ok and all(kept.get(k) == v for k, v in given_all.items())
+        rep.instance(R6, ok=ok, nontrivial=(wcls, tuple(sorted(declared))))
+        if not ok:
+            rep.finding(R6, f'C19.R6/{notation}', m.loc(WRITERS, tw_init), 'TabWriter.__init__ -> LexWriter',
+                        f'{notation} notation, tableau writer created with {sorted(given_all)}: the lexical writer ends up with opts {lwopts!r} (not passed on: {sorted(missing)}), '
+                        f'string table fetched with {fetched[-1:] or "nothing"}, error {err}: the sentences are then not written under the options asked for')
+    rep.floor('C19.R6', 'notations', n, 2)
